@@ -68,6 +68,8 @@ def encode_length(length: int) -> bytes:
 
 
 def read_length(string: bytes) -> tuple[int, int]:
+    if len(string) == 0:
+        raise UnexpectedDER("ran out of bytes where a length was expected")
     s0 = ord(string[:1])
     if not (s0 & 0x80):
         # short form
